@@ -2264,3 +2264,9 @@ m("C12", "formatter-reopens-file-strictly", "exc.py",
 m("C08", "item-unpacked-per-context", C,
   '''        assignment = [ast.Assign(targets=targets[:1], value=load("__item"))]''',
   '''        assignment = [ast.Assign(targets=targets, value=load("__item"))]''')
+
+m("C07", "attribute-expression-decoded-again", ZP,
+  '''                        value = nodes.Substitution(
+                            expr,''',
+  '''                        value = nodes.Substitution(
+                            decode_htmlentities(expr),''')
